@@ -768,21 +768,12 @@ func (g *gen) cmp(c *ctx, d int) *Expr {
 		e.CT = TInt
 	}
 	if e.CT == TStr {
-		// Operands are String captures and literals only: for those the compiler
-		// selects the string comparison.  With a builtin result on either side it
-		// selects the generic comparison, which compares numeric-looking strings
-		// as numbers and fails on "12" == "abc" (flagged stream str-cmp-generic).
-		op := func() *Expr {
-			if cs := g.caps(c, TStr); len(cs) > 0 && r.Chance(70) {
-				return vlib.Pick(r, cs)
-			}
-			return lit(TStr, r)
-		}
-		e.A, e.B = op(), op()
+		// any String operands, builtin results included (since fix 8af7b697 the
+		// compiler selects scmp for them too; before, the generic cmp compared
+		// numeric-looking strings as numbers: flagged stream str-cmp-generic)
+		e.A, e.B = g.expr(c, TStr, d-1), g.expr(c, TStr, d-1)
 		if e.A.Op == "str" && e.B.Op == "str" {
-			if cs := g.caps(c, TStr); len(cs) > 0 {
-				e.A = vlib.Pick(r, cs)
-			}
+			e.A = g.leaf(c, TStr, false)
 		}
 		return e
 	}
